@@ -10,6 +10,9 @@
 // backing arrays are read again: the slice-level model (Model/ValidatorsHeap.v)
 // must reproduce the issues AND the arrays, stage by stage.
 //
+// Issues are classified structurally (identity with the log, error types, wrapped
+// errors), never by the wording of a message.
+//
 // Files: main.go (artifacts, actors, actions, running the real code, projection,
 // Gallina printers), gen.go (flow generators), oracle.go (independent oracle:
 // bitmaps over artifact offsets, written from the property text; works on the
